@@ -18,6 +18,7 @@
 #include <new>
 #include <set>
 #include <string>
+#include <fcntl.h>
 #include <sys/mman.h>
 #include <sys/wait.h>
 #include <typeinfo>
@@ -231,7 +232,7 @@ namespace {
 
 constexpr int kMaxCounters = 2048;
 struct Counters {
-  char names[kMaxCounters][48];
+  char names[kMaxCounters][80];
   std::uint64_t total[kMaxCounters];    // summed over runs
   std::uint64_t runs_hit[kMaxCounters]; // number of runs in which it fired at least once
   std::uint64_t cur[kMaxCounters];
@@ -1033,6 +1034,7 @@ void CrashSignalHandler(int sig) {
 
 
 char gAltStack[1 << 16];
+bool gQuietChildren = false;
 
 void SnapshotProgress() {
   if (gRec != nullptr) {
@@ -1102,6 +1104,13 @@ std::string RunInChild(RunRecord* shared, const RunInput& in, int runs, std::str
     gRec = shared;
     gMode = 2;
     gOnAbort = nullptr;
+    if (gQuietChildren) {
+      const int devnull = open("/dev/null", O_WRONLY);
+      if (devnull >= 0) {
+        dup2(devnull, 2);
+        close(devnull);
+      }
+    }
     gWantDescribe = describe != nullptr;
     if (describe != nullptr) {
       close(pipefd[0]);
@@ -1707,6 +1716,7 @@ int Minimize(const Args& a) {
     return 2;
   }
   WarmUp();
+  gQuietChildren = true;
   Minimizer m;
   m.shared = MapRecord(true);
   m.target = cls;
